@@ -1534,7 +1534,7 @@ class Protocol(utils.EventEmitter):
             self.l2cap_channel.peer_mtu - 3
         )  # Enough space for a 3-byte start packet header
         payload = message.payload
-        if len(payload) + 2 <= self.l2cap_channel.peer_mtu:
+        if len(payload) <= max_fragment_size:
             # Fits in a single packet
             packet_type = self.PacketType.SINGLE_PACKET
         else:
